@@ -82,6 +82,12 @@ var (
 	Groups  = map[string]*Group{}
 )
 
+// AddressSpaceLimit is the RLIMIT_AS of a child: a runaway allocation kills the child (attributed
+// through the journal) instead of the sandbox. 4 GiB leaves room for every legitimate allocation
+// (largest deliberate cap in the code base: 256 MiB linked-log record) and keeps the cost of zeroing
+// huge successful allocations low.
+const AddressSpaceLimit = 4 << 30
+
 // DefaultAllocLimit: 256 MiB for inputs up to 1 MiB (the largest legitimate constant of the code
 // base is the 32 MiB CAR section cap), plus 64 bytes per input byte beyond that.
 func DefaultAllocLimit(step string, n int) uint64 {
@@ -101,6 +107,7 @@ type StepRes struct {
 	Msg   string `json:"m,omitempty"`
 	Class string `json:"c,omitempty"` // failure class (panic:index-out-of-range, alloc-out-of-proportion, ...)
 	Func  string `json:"f,omitempty"` // innermost repository function
+	Entry string `json:"e,omitempty"` // outermost exported function of the faulting function's package on the stack (API boundary)
 	Inner string `json:"i,omitempty"` // innermost non-runtime function (may be third-party)
 	Stack string `json:"s,omitempty"`
 	Alloc uint64 `json:"a,omitempty"`
@@ -113,6 +120,8 @@ type Stepper struct {
 	journal func(string)
 	nOK     int
 	nErr    int
+	// Violated reports whether the most recent step ended in a violation (panic / allocation).
+	Violated bool
 }
 
 var allocSample = []metrics.Sample{{Name: "/gc/heap/allocs:bytes"}}
@@ -138,6 +147,7 @@ func (s *Stepper) Do(name string, fn func() error) (ok bool) {
 	before := heapAllocs()
 	var res StepRes
 	res.Name = name
+	s.Violated = false
 	func() {
 		defer func() {
 			if r := recover(); r != nil {
@@ -146,7 +156,7 @@ func (s *Stepper) Do(name string, fn func() error) (ok bool) {
 				res.Class = "panic:" + PanicKind(r)
 				pcs := make([]uintptr, 64)
 				n := runtime.Callers(2, pcs)
-				res.Func, res.Inner, res.Stack = frames(pcs[:n])
+				res.Entry, res.Func, res.Inner, res.Stack = frames(pcs[:n])
 			}
 		}()
 		err := fn()
@@ -164,8 +174,9 @@ func (s *Stepper) Do(name string, fn func() error) (ok bool) {
 		res.Kind = "alloc"
 		res.Class = "alloc-out-of-proportion"
 		res.Msg = fmt.Sprintf("step allocated %d bytes (limit %d) for an input of %d bytes; the step returned %s", res.Alloc, lim, len(s.c.In), kind)
-		res.Func, res.Stack = bigAllocator()
+		res.Entry, res.Func, res.Stack = bigAllocator(fn)
 		s.steps = append(s.steps, res)
+		s.Violated = true
 		return false
 	}
 	switch res.Kind {
@@ -177,6 +188,7 @@ func (s *Stepper) Do(name string, fn func() error) (ok bool) {
 		return false
 	}
 	s.steps = append(s.steps, res)
+	s.Violated = true
 	return false
 }
 
@@ -246,20 +258,89 @@ func ShortFunc(fn string) string {
 	return fn
 }
 
-func frames(pcs []uintptr) (repoFn, innerFn, stack string) {
+// PkgOf returns the package path of a fully qualified function name.
+func PkgOf(fn string) string {
+	k := strings.LastIndex(fn, "/")
+	d := strings.Index(fn[k+1:], ".")
+	if d < 0 {
+		return fn
+	}
+	return fn[:k+1+d]
+}
+
+func isExportedFunc(fn string) bool {
+	fn = fn[len(PkgOf(fn)):]
+	fn = strings.TrimPrefix(fn, ".")
+	// drop closures
+	if k := strings.Index(fn, ".func"); k >= 0 {
+		fn = fn[:k]
+	}
+	parts := strings.Split(fn, ".")
+	last := parts[len(parts)-1]
+	last = strings.TrimLeft(last, "(*")
+	if last == "" {
+		return false
+	}
+	if len(parts) > 1 {
+		// method: the receiver type need not be exported for the method to be reachable through an interface; require the method name only
+	}
+	c := last[0]
+	return c >= 'A' && c <= 'Z'
+}
+
+// pickFrames applies the key rule to a list of function names ordered innermost first:
+//   fn    = innermost repository function (the faulting function),
+//   entry = outermost exported function of fn's package on the stack (the API boundary of the package
+//           that contains the fault); fn itself when there is none.
+func pickFrames(fns []string) (entry, fn string) {
+	for _, f := range fns {
+		if isRepoFunc(f) {
+			fn = f
+			break
+		}
+	}
+	if fn == "" {
+		if len(fns) > 0 {
+			return ShortFunc(fns[0]), ShortFunc(fns[0])
+		}
+		return "?", "?"
+	}
+	pkg := PkgOf(fn)
+	entry = fn
+	outer := ""
+	for _, f := range fns {
+		if PkgOf(f) == pkg {
+			outer = f
+			if isExportedFunc(f) {
+				entry = f
+			}
+		}
+	}
+	if !isExportedFunc(entry) && outer != "" {
+		entry = outer
+	}
+	clean := func(x string) string {
+		if k := strings.Index(x, ".func"); k >= 0 {
+			x = x[:k]
+		}
+		return ShortFunc(x)
+	}
+	return clean(entry), clean(fn)
+}
+
+func frames(pcs []uintptr) (entry, repoFn, innerFn, stack string) {
 	fr := runtime.CallersFrames(pcs)
 	var sb strings.Builder
 	lines := 0
+	var fns []string
 	for {
 		f, more := fr.Next()
 		fn := f.Function
-		if fn != "" && !strings.HasPrefix(fn, "runtime.") && !isHarnessFrame(fn, f.File) {
+		if fn != "" && !strings.HasPrefix(fn, "runtime.") && !isHarnessFrame(fn, f.File) && !strings.HasPrefix(fn, "testing.") {
 			if innerFn == "" {
 				innerFn = fn
 			}
-			if repoFn == "" && isRepoFunc(fn) {
-				repoFn = ShortFunc(fn)
-			}
+			fns = append(fns, fn)
 		}
 		if lines < 14 && fn != "" && !strings.HasPrefix(fn, "runtime.") {
 			fmt.Fprintf(&sb, "%s (%s:%d)\n", ShortFunc(fn), filepath.Base(f.File), f.Line)
@@ -269,52 +350,53 @@ func frames(pcs []uintptr) (repoFn, innerFn, stack string) {
 			break
 		}
 	}
-	if repoFn == "" {
-		repoFn = "?"
-		if innerFn != "" {
-			repoFn = ShortFunc(innerFn)
-		}
-	}
-	return repoFn, innerFn, sb.String()
+	entry, repoFn = pickFrames(fns)
+	return entry, repoFn, innerFn, sb.String()
 }
 
-// bigAllocator names the repository function below the largest allocation recorded by the heap
-// profile since the last call (MemProfileRate is set so that every allocation >= 16 MiB is sampled).
-var lastProfile = map[string]int64{}
-
-func bigAllocator() (fn string, stack string) {
+// heapSnapshot returns allocated bytes per allocation stack (heap profile; MemProfileRate is set so
+// that every allocation >= 16 MiB is sampled). Two GC cycles publish the pending profile data.
+func heapSnapshot() (map[string]int64, map[string][]uintptr) {
 	runtime.GC()
 	runtime.GC()
 	n, _ := runtime.MemProfile(nil, true)
 	recs := make([]runtime.MemProfileRecord, n+64)
 	n, ok := runtime.MemProfile(recs, true)
 	if !ok {
-		return "?", ""
+		return nil, nil
 	}
-	recs = recs[:n]
-	var best *runtime.MemProfileRecord
+	by := map[string]int64{}
+	st := map[string][]uintptr{}
+	for i := range recs[:n] {
+		r := &recs[i]
+		key := fmt.Sprint(r.Stack())
+		by[key] += r.AllocBytes
+		st[key] = append([]uintptr(nil), r.Stack()...)
+	}
+	return by, st
+}
+
+// bigAllocator names the function below the largest allocation of a step by running the step a second
+// time between two heap-profile snapshots (only called after the allocation meter has already fired).
+func bigAllocator(fn func() error) (entry string, repoFn string, stack string) {
+	base, _ := heapSnapshot()
+	func() {
+		defer func() { recover() }()
+		fn()
+	}()
+	cur, stacks := heapSnapshot()
+	var bestKey string
 	var bestDelta int64
-	cur := map[string]int64{}
-	for i := range recs {
-		r := &recs[i]
-		key := fmt.Sprint(r.Stack())
-		cur[key] += r.AllocBytes
-	}
-	for i := range recs {
-		r := &recs[i]
-		key := fmt.Sprint(r.Stack())
-		d := cur[key] - lastProfile[key]
-		if d > bestDelta {
-			bestDelta = d
-			best = r
+	for k, v := range cur {
+		if d := v - base[k]; d > bestDelta {
+			bestDelta, bestKey = d, k
 		}
 	}
-	lastProfile = cur
-	if best == nil {
-		return "?", ""
+	if bestKey == "" {
+		return "?", "?", ""
 	}
-	repoFn, _, st := frames(best.Stack())
-	return repoFn, st
+	e, f, _, st := frames(stacks[bestKey])
+	return e, f, st
 }
 
 // ---------------------------------------------------------------------------------------------
@@ -330,6 +412,17 @@ type ChildSpec struct {
 	NoRlimit  bool  `json:"no_rlimit,omitempty"`
 	HangSecs  int   `json:"hang_secs"`
 	ReadLimit int64 `json:"read_limit"`
+	// SkipFields: "entry|field" pairs whose remaining cases are skipped (the parent adds a pair after
+	// three process deaths with the same key on mutants of that field).
+	SkipFields []string `json:"skip_fields,omitempty"`
+}
+
+func fieldOf(c *Case) string {
+	f := c.Class
+	if k := strings.Index(f, "|"); k >= 0 {
+		f = f[:k]
+	}
+	return c.Entry + "|" + f
 }
 
 type resLine struct {
@@ -337,6 +430,7 @@ type resLine struct {
 	OK    int       `json:"ok"`
 	Err   int       `json:"err"`
 	Steps []StepRes `json:"st,omitempty"`
+	Ms    int       `json:"ms,omitempty"` // only when the case took more than 100 ms (diagnostic, never a verdict)
 }
 
 func readSyscalls() int64 {
@@ -353,15 +447,19 @@ func readSyscalls() int64 {
 	return -1
 }
 
+// FixDir is the fixture directory of the running child (set by ChildLoop).
+var FixDir string
+
 // ChildLoop is the body of a child process.
 func ChildLoop(spec ChildSpec) error {
+	FixDir = spec.FixDir
 	g := Groups[spec.Group]
 	if g == nil {
 		return fmt.Errorf("c12kit: unknown group %q", spec.Group)
 	}
 	runtime.MemProfileRate = 16 << 20
 	if !spec.NoRlimit && !RaceEnabled {
-		lim := syscall.Rlimit{Cur: 8 << 30, Max: 8 << 30}
+		lim := syscall.Rlimit{Cur: AddressSpaceLimit, Max: AddressSpaceLimit}
 		_ = syscall.Setrlimit(syscall.RLIMIT_AS, &lim)
 	}
 	jf, err := os.OpenFile(spec.Journal, os.O_CREATE|os.O_WRONLY|os.O_APPEND, 0o644)
@@ -416,8 +514,16 @@ func ChildLoop(spec ChildSpec) error {
 		}
 	}()
 
+	skip := map[string]bool{}
+	for _, f := range spec.SkipFields {
+		skip[f] = true
+	}
 	for i := spec.Start; i < len(cases); i++ {
 		c := &cases[i]
+		if skip[fieldOf(c)] {
+			journal(fmt.Sprintf("K %d\n", i))
+			continue
+		}
 		d := Drivers[c.Entry]
 		journal(fmt.Sprintf("S %d\n", i))
 		if d == nil {
@@ -431,6 +537,9 @@ func ChildLoop(spec ChildSpec) error {
 		d(c, s)
 		curIdx.Store(-1)
 		rl := resLine{Idx: i, OK: s.nOK, Err: s.nErr, Steps: s.steps}
+		if ms := int(time.Since(time.Unix(0, curStart.Load())).Milliseconds()); ms > 100 {
+			rl.Ms = ms
+		}
 		b, _ := json.Marshal(rl)
 		journal("R " + string(b) + "\n")
 	}
@@ -535,33 +644,45 @@ func CrashTail(txt string) string {
 	return txt
 }
 
-var reFrame = regexp.MustCompile(`(?m)^((?:github\.com/rpcpool/yellowstone-faithful/|main\.)[^\s(]*(?:\([^)]*\))?[^\s(]*)\(`)
 
-// FuncFromDump returns the innermost repository function of the first goroutine of a crash log /
-// goroutine dump that contains one (wantMarker: only goroutines whose stack contains this text).
-func FuncFromDump(dump string, wantMarker string) string {
+// FuncFromDump applies the key rule to the first goroutine of a crash log / goroutine dump that
+// contains a repository frame (wantMarker: only goroutines whose stack contains this text).
+func FuncFromDump(dump string, wantMarker string) (entry, fn string) {
 	blocks := strings.Split(dump, "\n\n")
 	for _, b := range blocks {
 		if wantMarker != "" && !strings.Contains(b, wantMarker) {
 			continue
 		}
+		var fns []string
 		for _, ln := range strings.Split(b, "\n") {
+			if strings.HasPrefix(ln, "\t") || strings.HasPrefix(ln, " ") {
+				continue // file:line rows
+			}
 			ln = strings.TrimSpace(ln)
-			if !(strings.HasPrefix(ln, Module) || strings.HasPrefix(ln, "main.")) {
+			if ln == "" || strings.HasPrefix(ln, "goroutine ") || strings.HasPrefix(ln, "created by ") || strings.HasPrefix(ln, "runtime.") || strings.HasPrefix(ln, "testing.") {
 				continue
 			}
 			k := strings.LastIndex(ln, "(")
 			if k <= 0 {
 				continue
 			}
-			fn := ln[:k]
-			if isHarnessFrame(fn, "") {
+			f := ln[:k]
+			if !strings.Contains(f, ".") || isHarnessFrame(f, "") {
 				continue
 			}
-			return ShortFunc(fn)
+			fns = append(fns, f)
+		}
+		has := false
+		for _, f := range fns {
+			if isRepoFunc(f) {
+				has = true
+			}
+		}
+		if has {
+			return pickFrames(fns)
 		}
 	}
-	return "?"
+	return "?", "?"
 }
 
 // FatalClass normalises the first fatal line of a crash log.
@@ -598,6 +719,7 @@ type journalState struct {
 	hang     int
 	loop     int
 	loopN    int64
+	skipped  int
 }
 
 func parseJournal(path string) journalState {
@@ -627,6 +749,8 @@ func parseJournal(path string) journalState {
 			if json.Unmarshal([]byte(ln[2:]), &rl) == nil {
 				st.results[rl.Idx] = rl
 			}
+		case 'K':
+			st.skipped++
 		case 'H':
 			st.hang, _ = strconv.Atoi(strings.TrimSpace(ln[1:]))
 		case 'L':
@@ -642,7 +766,7 @@ func parseJournal(path string) journalState {
 const (
 	MaxRecordedPerKey = 3
 	MaxDistinctKeys   = 40
-	MaxDeaths         = 60
+	MaxDeaths         = 400
 	MaxInconclusive   = 10
 )
 
@@ -658,6 +782,10 @@ type Runner struct {
 	NoRlimit     bool
 
 	perKey  map[string]int
+	deathBy map[string]int // key|field -> deaths
+	skipSet []string
+	skipped int
+	slow    []string
 	deaths  int
 	inconc  int
 	OKSteps int64
@@ -669,8 +797,11 @@ func sha(b []byte) string {
 	return hex.EncodeToString(h[:8])
 }
 
-func (r *Runner) violate(c *Case, step, class, fn, detail string) {
-	key := step + "/" + class + "/" + fn
+func (r *Runner) violate(c *Case, step, entry, class, fn, detail string) {
+	if entry == "" || entry == "?" {
+		entry = step
+	}
+	key := entry + "/" + class + "/" + fn
 	key = strings.ReplaceAll(key, " ", "")
 	if r.perKey == nil {
 		r.perKey = map[string]int{}
@@ -681,8 +812,24 @@ func (r *Runner) violate(c *Case, step, class, fn, detail string) {
 		return
 	}
 	in := c.In
-	det := fmt.Sprintf("entry %s, input %q (%d bytes, sha256/8 %s): %s", c.Entry, c.Label, len(in), sha(in), detail)
+	det := fmt.Sprintf("step %s (driver %s), input %q (%d bytes, sha256/8 %s): %s", step, c.Entry, c.Label, len(in), sha(in), detail)
 	r.Rec.Violation(key, det, Replay{Group: r.Group, Case: *c, Step: step, Sha: sha(in)})
+}
+
+// noteDeath counts a process death per (key, mutated field); after three, the remaining mutants of
+// that field are skipped (reported in the evidence) so that one defect cannot exhaust the budget that
+// the other entry points need.
+func (r *Runner) noteDeath(c *Case, key string) {
+	if r.deathBy == nil {
+		r.deathBy = map[string]int{}
+	}
+	f := fieldOf(c)
+	k := key + " @ " + f
+	r.deathBy[k]++
+	if r.deathBy[k] == 3 {
+		r.skipSet = append(r.skipSet, f)
+		r.Rec.Note("skipped_after_3_deaths:"+f, key)
+	}
 }
 
 func (r *Runner) enough() bool {
@@ -724,10 +871,13 @@ func (r *Runner) Run() {
 		spawns++
 		jp := filepath.Join(journalDir, fmt.Sprintf("%s-%d-%d.journal", r.Group, os.Getpid(), spawns))
 		os.Remove(jp)
-		spec := ChildSpec{Group: r.Group, FixDir: r.FixDir, Start: start, Journal: jp, Only: only, NoRlimit: r.NoRlimit, HangSecs: r.HangSecs, ReadLimit: r.ReadLimit}
+		spec := ChildSpec{Group: r.Group, FixDir: r.FixDir, Start: start, Journal: jp, Only: only, NoRlimit: r.NoRlimit, HangSecs: r.HangSecs, ReadLimit: r.ReadLimit, SkipFields: r.skipSet}
+		t0 := time.Now()
 		out, exitErr, timedOut := r.Spawn(spec, r.ChildTimeout)
 		st := parseJournal(jp)
 		os.Remove(jp)
+		r.skipped += st.skipped
+		r.Rec.Count("child_ms", int(time.Since(t0).Milliseconds()))
 		if st.n >= 0 && st.n != len(cases) {
 			r.Rec.Inconclusive(fmt.Sprintf("%s: child generated %d cases, parent %d (generator not deterministic) — harness error", r.Group, st.n, len(cases)))
 			return
@@ -750,14 +900,18 @@ func (r *Runner) Run() {
 			r.ErrStep += int64(rl.Err)
 			r.Rec.Count("steps_ok:"+c.Entry, rl.OK)
 			r.Rec.Count("steps_err:"+c.Entry, rl.Err)
+			if rl.Ms > 0 {
+				r.slow = append(r.slow, fmt.Sprintf("%6d ms %s", rl.Ms, c.Label))
+				r.Rec.Count("slow_cases_ms", rl.Ms)
+			}
 			for _, s := range rl.Steps {
 				switch s.Kind {
 				case "panic":
-					r.violate(c, s.Name, s.Class, s.Func, fmt.Sprintf("PANIC %q (expected: an error or a result); innermost frame %s; stack:\n%s", s.Msg, ShortFunc(s.Inner), s.Stack))
+					r.violate(c, s.Name, s.Entry, s.Class, s.Func, fmt.Sprintf("PANIC %q (expected: an error or a result); innermost frame %s; stack:\n%s", s.Msg, ShortFunc(s.Inner), s.Stack))
 				case "alloc":
-					r.violate(c, s.Name, s.Class, s.Func, fmt.Sprintf("%s; allocating stack:\n%s", s.Msg, s.Stack))
+					r.violate(c, s.Name, s.Entry, s.Class, s.Func, fmt.Sprintf("%s; allocating stack:\n%s", s.Msg, s.Stack))
 				case "budget":
-					r.violate(c, s.Name, s.Class, "-", s.Msg)
+					r.violate(c, s.Name, s.Name, s.Class, "-", s.Msg)
 				case "nodriver":
 					r.Rec.Inconclusive("no driver for entry " + c.Entry)
 					r.inconc++
@@ -792,8 +946,8 @@ func (r *Runner) Run() {
 		}
 		switch {
 		case st.loop == bad:
-			fn := FuncFromDump(out, "c12kit.(*Stepper).Do")
-			r.violate(c, step, "unbounded-reads", fn, fmt.Sprintf("the step issued %d read system calls on an input of %d bytes and had not returned (budget %d): a loop that does not terminate on this input; goroutine dump:\n%s", st.loopN, len(c.In), r.ReadLimit, trunc(out, 2500)))
+			en, fn := FuncFromDump(out, "c12kit.(*Stepper).Do")
+			r.violate(c, step, en, "unbounded-reads", fn, fmt.Sprintf("the step issued %d read system calls on an input of %d bytes and had not returned (budget %d): a loop that does not terminate on this input; goroutine dump:\n%s", st.loopN, len(c.In), r.ReadLimit, trunc(out, 2500)))
 			r.deaths++
 		case st.hang == bad || timedOut:
 			r.inconc++
@@ -801,8 +955,9 @@ func (r *Runner) Run() {
 				r.Group, step, c.Label, len(c.In), sha(c.In), hexShort(c.In), trunc(out, 1200)))
 		default:
 			class := FatalClass(out)
-			fn := FuncFromDump(out, "")
-			r.violate(c, step, class, fn, fmt.Sprintf("the process DIED (exit: %v) — not recoverable by the caller; log:\n%s", exitErr, trunc(out, 3000)))
+			en, fn := FuncFromDump(out, "")
+			r.noteDeath(c, en+"/"+class+"/"+fn)
+			r.violate(c, step, en, class, fn, fmt.Sprintf("the process DIED (exit: %v) — not recoverable by the caller; log:\n%s", exitErr, trunc(out, 3000)))
 			r.deaths++
 		}
 		start = bad + 1
@@ -810,9 +965,15 @@ func (r *Runner) Run() {
 	for k := range classes {
 		r.Rec.Distinct(k)
 	}
+	sort.Sort(sort.Reverse(sort.StringSlice(r.slow)))
+	if len(r.slow) > 8 {
+		r.slow = r.slow[:8]
+	}
+	r.Rec.Note("slowest_cases", r.slow)
 	r.Rec.Count("children", spawns)
 	r.Rec.Count("cases_generated", len(cases))
 	r.Rec.Count("deaths", r.deaths)
+	r.Rec.Count("cases_skipped_after_repeated_deaths", r.skipped)
 	if r.enough() && start < len(cases) {
 		r.Rec.Note("stopped_early", fmt.Sprintf("budget reached after %d of %d cases (distinct keys %d, deaths %d, inconclusive %d)", start, len(cases), len(r.perKey), r.deaths, r.inconc))
 	}
